@@ -1513,6 +1513,8 @@ class Converter:
         logger.debug("Converter:_translate_function_def_common:%s", fn.name)
         _ = self._translate_function_signature_common(fn)
         for i, s in enumerate(fn.body):
+            if isinstance(s, ast.Return) and i != len(fn.body) - 1:
+                self._fail(s, "A return statement must be the last statement of the function.")
             self._translate_stmt(s, index_of_stmt=i)
         return self._current_fn
 
